@@ -53,6 +53,7 @@ impl HEv {
 pub struct History {
     pub id: String,
     pub sid: String,
+    pub cmp: String,
     pub c: u32,
     pub l: u32,
     pub scr: bool,
@@ -65,6 +66,7 @@ impl History {
         History {
             id: v["id"].as_str().unwrap_or("").to_string(),
             sid: v["sid"].as_str().unwrap_or("").to_string(),
+            cmp: v["cmp"].as_str().unwrap_or("").to_string(),
             c: v["C"].as_u64().unwrap_or(4) as u32,
             l: v["L"].as_u64().unwrap_or(3) as u32,
             scr: v["scr"].as_bool().unwrap_or(true),
@@ -75,9 +77,10 @@ impl History {
     pub fn json(&self) -> String {
         let evs: Vec<String> = self.evs.iter().map(|e| e.json()).collect();
         format!(
-            "{{\"id\":{},\"sid\":{},\"C\":{},\"L\":{},\"scr\":{},\"utf8\":{},\"evs\":[{}]}}",
+            "{{\"id\":{},\"sid\":{},\"cmp\":{},\"C\":{},\"L\":{},\"scr\":{},\"utf8\":{},\"evs\":[{}]}}",
             serde_json::to_string(&self.id).unwrap(),
             serde_json::to_string(&self.sid).unwrap(),
+            serde_json::to_string(&self.cmp).unwrap(),
             self.c,
             self.l,
             self.scr,
@@ -397,9 +400,11 @@ impl Machine {
         let panics = t.panics;
         drop(t);
         self.out.push(format!(
-            "{{\"k\":\"end\",\"id\":{},\"sid\":{},\"dead\":{},\"panics\":{},\"post\":{}}}",
+            "{{\"k\":\"end\",\"id\":{},\"sid\":{},\"cmp\":{},\"scr\":{},\"dead\":{},\"panics\":{},\"post\":{}}}",
             serde_json::to_string(&h.id).unwrap(),
             serde_json::to_string(&h.sid).unwrap(),
+            serde_json::to_string(&h.cmp).unwrap(),
+            h.scr,
             self.dead, panics, post
         ));
     }
